@@ -74,6 +74,11 @@ Section Refine.
   Let Hne : L <> [] := wf_plist_nonempty L Hwf.
   Let HSp : 0 < SA L := pow2_pos _ (SA_pow2 L HF Hne).
 
+  Lemma Hct : all_ctriv L = true.
+  Proof. unfold all_triv in Htriv. apply andb_true_iff in Htriv. tauto. Qed.
+  Lemma Hdt : all_dtriv L = true.
+  Proof. unfold all_triv in Htriv. apply andb_true_iff in Htriv. tauto. Qed.
+
   Lemma pal_div_SA d : (SA L | d) -> forall p, In p L -> (pal p | d).
   Proof. intros Hd p Hp. eapply Z.divide_trans; [apply SA_div; eauto|exact Hd]. Qed.
 
@@ -216,7 +221,7 @@ Section Refine.
 
   (* ---------------- resize: pop_back, clear, tail erase ---------------- *)
   Lemma destruct_elem_triv v i : destruct_elem L v i = (v, []).
-  Proof. unfold destruct_elem. now rewrite Htriv. Qed.
+  Proof. unfold destruct_elem. now rewrite Hdt. Qed.
 
   Lemma nth_map_seq (f : nat -> Z) n i : (i < n)%nat -> nth i (map f (seq 0 n)) 0 = f i.
   Proof.
@@ -275,7 +280,7 @@ Section Refine.
   Lemma insert_into_triv mv destr v bid junk :
     insert_into mv destr L v bid junk =
       (v, mcopy (v_mem v) 0 junk 0 (dend L v), [ERaw bid 0 (dend L v)]).
-  Proof. unfold insert_into. now rewrite Htriv. Qed.
+  Proof. unfold insert_into. rewrite Hct, Hdt, orb_true_r. reflexivity. Qed.
 
   Theorem reserve_rep v l n b junk bid tbid : Rep L v l ->
     Rep L (fst (reserve L v n b junk bid tbid)) l /\
@@ -491,7 +496,7 @@ Section Refine.
 
   (* ---------------- the public operations ---------------- *)
   Lemma move_forward_triv_eq v from to : move_forward L v from to = move_forward_triv L v from to.
-  Proof. unfold move_forward. now rewrite Htriv. Qed.
+  Proof. unfold move_forward. now rewrite Hct, Hdt. Qed.
 
   Theorem pop_back_rep v l : Rep L v l -> l <> [] -> Rep L (fst (pop_back L v)) (removelast l).
   Proof.
@@ -503,7 +508,7 @@ Section Refine.
 
   Theorem clear_rep v l : Rep L v l -> Rep L (fst (clear L v)) [].
   Proof.
-    intros R. unfold clear. rewrite Htriv. cbn [fst]. change 0 with (Z.of_nat 0).
+    intros R. unfold clear. rewrite Hdt. cbn [fst]. change 0 with (Z.of_nat 0).
     change (@nil tuple) with (firstn 0 l). apply resize_rep; auto. lia.
   Qed.
 
@@ -523,7 +528,7 @@ Section Refine.
   Theorem erase_range_rep v l i j : Rep L v l -> 0 <= i <= j -> j <= Z.of_nat (length l) ->
     Rep L (fst (erase_range L v i j)) (remove_range (Z.to_nat i) (Z.to_nat j) l).
   Proof.
-    intros R Hi Hj. unfold erase_range. rewrite Htriv, move_forward_triv_eq.
+    intros R Hi Hj. unfold erase_range. rewrite Hdt, move_forward_triv_eq.
     rewrite (proj1 (rep_obs v l R)). unfold remove_range.
     destruct (Z.ltb_spec j (Z.of_nat (length l))) as [Hlt|Hge]; destruct (Z.eqb_spec i j) as [Heq|Hneq]; cbn [andb negb].
     - (* empty range *)
@@ -576,12 +581,12 @@ Section Refine.
     - split; [apply erase_rep; auto|]. unfold erase. rewrite destruct_elem_triv, move_forward_triv_eq.
       unfold move_forward_triv. destruct (has_varying L && _); cbn [fst];
         unfold resize; destruct (has_varying L); cbn [fst]; try destruct (_ <? _); cbn; auto.
-    - destruct Hv as [Hi Hj]. split; [apply erase_range_rep; auto|]. unfold erase_range. rewrite Htriv, move_forward_triv_eq.
+    - destruct Hv as [Hi Hj]. split; [apply erase_range_rep; auto|]. unfold erase_range. rewrite Hdt, move_forward_triv_eq.
       destruct ((j <? vsize L v) && negb (i =? j)); cbn [fst].
       + unfold move_forward_triv. destruct (has_varying L && _); cbn [fst];
           unfold resize; destruct (has_varying L); cbn [fst]; try destruct (_ <? _); cbn; auto.
       + unfold resize; destruct (has_varying L); cbn [fst]; try destruct (_ <? _); cbn; auto.
-    - split; [apply (clear_rep v (s_elems s)); auto|]. unfold clear. rewrite Htriv. cbn [fst].
+    - split; [apply (clear_rep v (s_elems s)); auto|]. unfold clear. rewrite Hdt. cbn [fst].
       unfold resize. destruct (has_varying L); [destruct (_ <? _)|]; cbn; auto.
     - destruct (reserve_rep v (s_elems s) n b junk O O R) as (H1 & H2 & H3). split; [exact H1|]. split; [lia|exact H3].
   Qed.
